@@ -28,6 +28,10 @@ type ShutdownOpts struct {
 	HTTP       bool
 	NoStore    bool // the runner is used without a store (no persistence): Shutdown must still return
 	NoFinisher bool // nothing lets tasks end during the shutdown: a forced shutdown has to cancel every running job
+	// RaiseBefore: directly before the shutdown a reload raises the concurrency of every pipeline. A reload starts nothing by
+	// itself, so jobs WAIT next to free slots when the shutdown begins: they are canceled like every waiting job, not started
+	// (seed C11-n: the purge of the wait list goes through the cancel path, which hands the freed place to the next waiter)
+	RaiseBefore bool
 	Watchdog   time.Duration
 }
 
@@ -119,6 +123,15 @@ func RunShutdownCase(seed int64, o ShutdownOpts) *HistResult {
 			return res
 		}
 	}
+	if o.RaiseBefore {
+		for i := range specs {
+			specs[i].Def.Concurrency += 2
+		}
+		sys.Replace(0, gen.BuildDefs(specs), "raise the concurrency of every pipeline")
+		if !quiesce() {
+			return res
+		}
+	}
 	begin := sys.Snapshot(-1)
 	var atBegin []jobAtBegin
 	nRun, nWait, nFin := 0, 0, 0
@@ -139,6 +152,9 @@ func RunShutdownCase(seed int64, o ShutdownOpts) *HistResult {
 		}
 	}
 	res.sit("C11", fmt.Sprintf("forced=%v slowSave=%v clients=%v running=%d waiting=%d finished=%d", o.Forced, o.SlowSave, o.Clients, min(nRun, 3), min(nWait, 3), min(nFin, 2)))
+	if o.RaiseBefore && nWait > 0 {
+		res.sit("C11", fmt.Sprintf("jobs wait next to free slots when the shutdown begins (forced=%v, waiting=%d)", o.Forced, min(nWait, 3)))
+	}
 
 	// ---- shutdown with concurrent traffic ----
 	var stopClients atomic.Bool
@@ -1273,6 +1289,122 @@ func RunShutdownWithSavesInFlightCase(seed int64) *HistResult {
 			compare("after the slow store had finished")
 		case <-time.After(30 * time.Second):
 			res.Inconclusive = "graceful shutdown did not return after the store was released"
+		}
+	}
+	res.Events = sys.Log.Len()
+	return res
+}
+
+// RunShutdownWithFreeSlotsCase (C11; seed C11-n): jobs WAIT next to free slots when the shutdown begins (a reload raised
+// the concurrency; a reload starts nothing by itself). Nothing else is going on - no client, no task ends - so every job
+// that waits when Shutdown is called is canceled by it and never runs a task, graceful or forced; the running job is
+// left alone by a graceful shutdown. Decided at a logical quiescence after the runner refuses requests ("shutting down").
+func RunShutdownWithFreeSlotsCase(seed int64) *HistResult {
+	res := &HistResult{Seed: seed, Situations: map[string]map[string]struct{}{}, Evaluations: map[string]int{}}
+	find := func(sig, format string, args ...any) {
+		res.Findings = append(res.Findings, Finding{Props: []string{"C11"}, Sig: sig, Detail: fmt.Sprintf(format, args...), Step: -1})
+	}
+	nWait := 2 + int(seed%3)
+	forced := (seed/3)%2 == 1
+	raiseTo := 2 + int(seed/6)%3
+	def := definition.PipelineDef{Concurrency: 1, SourcePath: "gen", Tasks: map[string]definition.TaskDef{"t": {Script: []string{"true"}}}}
+	sys, err := core.NewSys(&definition.PipelinesDef{Pipelines: map[string]definition.PipelineDef{"p": def}}, &core.RecStore{}, core.NewMemOutputStore())
+	if err != nil {
+		res.Inconclusive = err.Error()
+		return res
+	}
+	defer sys.Close()
+	defer DrainAll(sys)
+	running, cls := sys.Schedule(0, "p", nil, "u")
+	if cls != "ok" {
+		res.Inconclusive = "schedule: " + cls
+		return res
+	}
+	var waiting []string
+	for i := 0; i < nWait; i++ {
+		id, cls := sys.Schedule(0, "p", nil, "u")
+		if cls != "ok" {
+			res.Inconclusive = "schedule: " + cls
+			return res
+		}
+		waiting = append(waiting, id)
+	}
+	def.Concurrency = raiseTo
+	sys.Replace(0, &definition.PipelinesDef{Pipelines: map[string]definition.PipelineDef{"p": def}}, fmt.Sprintf("raise concurrency to %d", raiseTo))
+	v, err := sys.Quiesce(core.QuiesceOpts{Watchdog: 20 * time.Second})
+	if err != nil {
+		res.Inconclusive = err.Error()
+		return res
+	}
+	for _, id := range waiting {
+		if j := v.ByID(id); j == nil || !j.Waiting() {
+			res.Inconclusive = "a job that should wait does not (the reload started it?)"
+			return res
+		}
+	}
+	ctx, cancel := context.WithCancel(context.Background())
+	defer cancel()
+	if forced {
+		cancel()
+	}
+	sd := make(chan struct{})
+	go func() { defer close(sd); _ = sys.Shutdown(5, ctx, "jobs wait next to free slots") }()
+	observed := false
+	for i := 0; i < 200000; i++ {
+		if _, cls := sys.Schedule(8, "no-such-pipeline-probe", nil, "probe"); cls == "shutting-down" {
+			observed = true
+			break
+		}
+		time.Sleep(50 * time.Microsecond)
+	}
+	if !observed {
+		res.Inconclusive = "the shutdown was not observed to begin"
+		return res
+	}
+	if !forced {
+		if _, err := sys.Quiesce(core.QuiesceOpts{Watchdog: 20 * time.Second}); err != nil {
+			res.Inconclusive = err.Error()
+			return res
+		}
+	} else {
+		select {
+		case <-sd:
+		case <-time.After(20 * time.Second):
+			res.Inconclusive = "forced shutdown did not return"
+			return res
+		}
+	}
+	res.sit("C11", fmt.Sprintf("%d jobs wait next to %d free slots when a shutdown begins (forced=%v)", nWait, raiseTo-1, forced))
+	res.Evaluations["C11"] += nWait
+	entered := map[string]bool{}
+	for _, e := range sys.Log.Events() {
+		if e.Kind == core.KRunEnter || e.Kind == core.KNewRunner {
+			entered[e.Job] = true
+		}
+	}
+	for i, id := range waiting {
+		j, ok := sys.ReadJob(id)
+		if !ok {
+			find("C11:job-lost-during-shutdown", "waiting job %d is not reported any more", i)
+			continue
+		}
+		if entered[id] || j.Start != nil {
+			find("C11:waiting-job-started-by-shutdown", "job %d of %d was waiting (next to %d free slots, after a reload had raised the concurrency) when the shutdown began with nothing else going on; it was started during the shutdown (start=%v, task entered the runner=%v, canceled=%v) instead of being canceled (forced=%v)", i+1, nWait, raiseTo-1, j.Start != nil, entered[id], j.Canceled, forced)
+		} else if !j.Canceled {
+			find("C11:waiting-job-not-canceled-by-shutdown", "job %d of %d was waiting when the shutdown began and is reported canceled=%v started=%v after the runner refuses requests", i+1, nWait, j.Canceled, j.Start != nil)
+		}
+	}
+	if !forced {
+		if j, ok := sys.ReadJob(running); ok && (j.Canceled || sys.Log.CancelEntered(running)) {
+			find("C11:graceful-shutdown-canceled-running-job", "graceful shutdown: the running job was told to stop or is reported canceled")
+		}
+		DrainAll(sys)
+		select {
+		case <-sd:
+		case <-time.After(20 * time.Second):
+			if len(res.Findings) == 0 {
+				res.Inconclusive = "graceful shutdown did not return after the running job had ended"
+			}
 		}
 	}
 	res.Events = sys.Log.Len()
